@@ -33,10 +33,35 @@ R16c  async-block outline that keeps the captured variables:
       that occur as such before the block in the enclosing function (or are `self`), in order of first use.  `move` captures
       exactly these by value; passing them to the stub moves them the same way (rustc checks that they are variables in scope).
       As R16 (ujoin.py): building the block executes none of B; B is verified separately as a lifted region.
+
+R3k   log macros whose arguments have effects are kept as the evaluation of those arguments (runs BEFORE the always-on R3:
+      the function carries `vx_pre = True`):
+        `debug!(FMT, a, self.get().is_ok());`  ->  `{ let _ = &(self.get().is_ok()); }`
+      A `debug!/info!/warn!/error!/trace!` statement (also path-qualified) is rewritten iff at least one argument contains a
+      call: an identifier followed by `(` (method or function call) or a macro invocation `name!(`.  Each such argument ARG
+      (for `key = ARG` fields the value, without a leading `?`/`%` sigil) becomes `let _ = &(ARG);`, in argument order.
+      Dropped: the format string, every argument that is a plain path / field access / literal, and the formatting itself
+      (`Display`/`Debug` impls of the values are not run).  Whether the arguments are evaluated at run time depends on the
+      enabled log level; evaluating them is the conservative reading ("logging may be enabled": an enabled level does).
+      Macros without such an argument are left to R3 (erased).
+
+Rh    ghost "held locks" set threaded through the functions of this unit (pure ghost elaboration, no executable change):
+        * every function gets `let ghost mut vx_held: Set<int> = ..;` at body start: the functions named in HELD_FNS
+          (`complete`, `get`, `get_future`: the ones that take an RwLock of their `Call`) receive it from the caller through
+          a new trailing parameter `Ghost(vx_held0): Ghost<Set<int>>` (erased by Verus at compile time); every other function
+          (entry points: `work`, `poll`, `drop`, the lifted async bodies, which run as tasks of their own) starts with the
+          empty set
+        * `.NAME(args)` for NAME in HELD_FNS  ->  `.NAME(args, Ghost(vx_held))`      (method-name based: select the rule only
+          for items where these names mean the unit's functions)
+        * zero-argument `.read()` / `.write()`  ->  `.read(Ghost(vx_held))`: the stub REQUIRES that the lock is not in the set
+        * after `let mut G = R.read(..);` (guard binding, as Rg)   `proof { vx_held = vx_held.insert(G.lock_of().id()); }`
+        * after `vx_release_read/_write(&mut G);` (written by Rg)   `proof { vx_held = vx_held.remove(G.lock_of().id()); }`
+      A guard that is a temporary is released at the end of its statement: only the acquisition check applies.  Must run
+      after Rg.  Not handled: guards acquired or released inside loops (would need an invariant about `vx_held`).
 """
 from ..lexer import lex, sig
 from ..extract import match_close
-from ..rewrite import apply_edits, find_seq
+from ..rewrite import apply_edits, find_seq, split_args
 
 _KW = {"self", "Self", "crate", "super", "true", "false", "as", "break", "const", "continue", "else", "enum", "extern", "fn", "for", "if",
        "impl", "in", "let", "loop", "match", "mod", "move", "mut", "pub", "ref", "return", "static", "struct", "trait", "type", "unsafe",
@@ -297,4 +322,122 @@ def r16c(text, log):
     return apply_edits(text, edits)
 
 
-RULES = {"Rpin": rpin, "Rq": rq, "Rg": rg, "Rcl": rcl, "R16c": r16c}
+_LOG_MACROS = {"debug", "info", "warn", "error", "trace"}
+
+
+def _has_call(st, a, b):
+    for k in range(a, b):
+        if st[k].kind == "ident" and k + 1 < b and st[k + 1].text == "(" and st[k].text not in _KW:
+            return True
+        if st[k].text == "!" and k + 1 < b and st[k + 1].text in ("(", "[", "{") and k > a and st[k - 1].kind == "ident":
+            return True
+    return False
+
+
+def r3k(text, log):
+    st = sig(lex(text))
+    edits = []
+    n = 0
+    i = 0
+    while i < len(st):
+        t = st[i]
+        if t.kind == "ident" and t.text in _LOG_MACROS and i + 2 < len(st) and st[i + 1].text == "!" and st[i + 2].text == "(":
+            s0 = i
+            while s0 >= 3 and st[s0 - 1].text == ":" and st[s0 - 2].text == ":" and st[s0 - 3].kind == "ident":
+                s0 -= 3
+            prev = st[s0 - 1].text if s0 > 0 else "{"
+            c = match_close(st, i + 2)
+            if prev in ("{", ";", "}") and c + 1 < len(st) and st[c + 1].text == ";":
+                kept = []
+                for a, b in split_args(st, i + 2, c):
+                    # `key = VALUE` field: the value
+                    depth = 0
+                    for k in range(a, b):
+                        x = st[k]
+                        if x.kind == "punct" and x.text in "([{":
+                            depth += 1
+                        elif x.kind == "punct" and x.text in ")]}":
+                            depth -= 1
+                        elif depth == 0 and x.text == "=" and k + 1 < b and st[k + 1].text != "=" and st[k - 1].text not in ("=", "!", "<", ">"):
+                            a = k + 1
+                            break
+                    while a < b and st[a].text in ("?", "%"):
+                        a += 1
+                    if a < b and _has_call(st, a, b):
+                        kept.append(text[st[a].start:st[b - 1].end])
+                if kept:
+                    edits.append((st[s0].start, st[c + 1].end, "{ %s }" % " ".join("let _ = &(%s);" % k for k in kept)))
+                    n += 1
+                i = c + 2
+                continue
+        i += 1
+    if n:
+        log["R3k log macro -> evaluation of its effectful arguments"] = log.get("R3k log macro -> evaluation of its effectful arguments", 0) + n
+    return apply_edits(text, edits)
+
+
+r3k.vx_pre = True
+
+HELD_FNS = {"complete", "get", "get_future"}
+
+
+def rh(text, log):
+    st = sig(lex(text))
+    edits = []
+    n = 0
+    # the function's own name, parameter list and body
+    f = next(k for k, t in enumerate(st) if t.kind == "ident" and t.text == "fn")
+    name = st[f + 1].text
+    po = f + 2
+    while st[po].text != "(":
+        if st[po].text == "<":
+            d = 1
+            po += 1
+            while d:
+                if st[po].text == "<":
+                    d += 1
+                elif st[po].text == ">" and st[po - 1].text != "-":
+                    d -= 1
+                po += 1
+            continue
+        po += 1
+    pc = match_close(st, po)
+    bo = pc + 1
+    while st[bo].text != "{":
+        if st[bo].kind == "punct" and st[bo].text in "([":
+            bo = match_close(st, bo)
+        bo += 1
+    if name in HELD_FNS:
+        sep = "" if pc == po + 1 else (" " if st[pc - 1].text == "," else ", ")
+        edits.append((st[pc].start, st[pc].start, "%sGhost(vx_held0): Ghost<Set<int>>" % sep))
+        edits.append((st[bo].end, st[bo].end, " let ghost mut vx_held: Set<int> = vx_held0;"))
+    else:
+        edits.append((st[bo].end, st[bo].end, " let ghost mut vx_held: Set<int> = Set::empty();"))
+    for i in range(bo + 1, len(st)):
+        t = st[i]
+        if t.text == "." and i + 2 < len(st) and st[i + 1].kind == "ident" and st[i + 2].text == "(":
+            m = st[i + 1].text
+            c = match_close(st, i + 2)
+            if m in HELD_FNS:
+                sep = "" if c == i + 3 else ", "
+                edits.append((st[c].start, st[c].start, "%sGhost(vx_held)" % sep))
+                n += 1
+            elif m in ("read", "write") and c == i + 3:
+                edits.append((st[c].start, st[c].start, "Ghost(vx_held)"))
+                n += 1
+                # guard binding `let [mut] G = ... .read();`
+                if st[c + 1].text == ";":
+                    s = _stmt_start(st, i)
+                    if st[s].text == "let":
+                        g = s + 2 if st[s + 1].text == "mut" else s + 1
+                        if st[g].kind == "ident" and st[g + 1].text == "=":
+                            edits.append((st[c + 1].end, st[c + 1].end, " proof { vx_held = vx_held.insert(%s.lock_of().id()); }" % st[g].text))
+        if t.kind == "ident" and t.text in ("vx_release_read", "vx_release_write") and st[i + 1].text == "(":
+            c = match_close(st, i + 1)
+            if st[i + 2].text == "&" and st[i + 3].text == "mut" and st[i + 4].kind == "ident" and st[c + 1].text == ";":
+                edits.append((st[c + 1].end, st[c + 1].end, " proof { vx_held = vx_held.remove(%s.lock_of().id()); }" % st[i + 4].text))
+    log["Rh held-lock set threading"] = log.get("Rh held-lock set threading", 0) + 1 + n
+    return apply_edits(text, edits)
+
+
+RULES = {"R3k": r3k, "Rh": rh, "Rpin": rpin, "Rq": rq, "Rg": rg, "Rcl": rcl, "R16c": r16c}
